@@ -37,6 +37,10 @@ def http_scenarios(quick):
     scripts.append([R(429, 0), R(503), R(500)])
     scripts.append([R(500), R(err="conn"), R(err="conn")])
     forced += [(si, bi, rc, 8, "none", via) for si in (4, len(scripts) - 2, len(scripts) - 1) for bi in (0, 3) for rc in ("background", "values") for via in ("roundtripper", "request")]
+    # always: an attempt that fails on a deadline of its own below the adapter (the caller's context is alive): retried like any transient error
+    scripts.append([R(err="attemptdl"), R(200)])
+    scripts.append([R(503, 1), R(err="attemptdl"), R(200, mode="streamed")])
+    forced += [(si, bi, rc, pi, "none", via) for si in (len(scripts) - 2, len(scripts) - 1) for bi in (0, 1) for rc in ("background", "cancellable") for pi in (0, 1, 8) for via in ("roundtripper", "request")]
     # always: a Timeout that fires while the server is still thinking, with and without a request body (C07 through the adapter)
     scripts.append([R(200, mode="slow3")])
     pols.append(["timeout1"])
@@ -71,7 +75,7 @@ def seek_reuse(sc, tr):
         return True
     # ... or a later attempt that the transport refused before it reached the server: fewer arrivals than the script demands
     def retryable(r):
-        return r["err"] == "conn" or r["status"] == 429 or (r["status"] >= 500 and r["status"] != 501)
+        return r["err"] != "none" or r["status"] == 429 or (r["status"] >= 500 and r["status"] != 501)
     want = 1
     for r in sc["script"]:
         if retryable(r) and want <= sc["maxRetries"] and want < len(sc["script"]):
@@ -82,7 +86,7 @@ def seek_reuse(sc, tr):
     return ("retry" in sc["policies"] or "retrybo" in sc["policies"]) and 1 < got < want
 
 
-LEAK_CLAUSES = {"mergerLeak", "responseNotClosed", "nilInnerSharesDefaultTransport"}
+LEAK_CLAUSES = {"mergerLeak", "responseNotClosed", "nilInnerSharesDefaultTransport", "hedgeLoserReleased"}
 TIMEOUT_CLAUSES = {"timeoutPrompt", "attemptCancelled"}      # C07 through the HTTP adapter: reported by C07's check
 
 
